@@ -11,7 +11,7 @@
      S <hex>   stack eightbytes
      D <hex>   seed words copied to c06_obs+4096 (live values / alloca patterns)
      P <np> <nv> <nl> <na>   eightbytes to dump from the param (0), va (2048), live (4352), alloca (4608) regions
-     E <engine>...   i | 0 1 2 3 | L (lazy generation at -O2: reported as L = first call through the thunk, l = second call)
+     E <engine>...   i | 0 1 2 3 | L (lazy generation at -O2, first call through the thunk) | M (the same, reported as L, plus a second call reported as l)
      X
    Output: BEGIN/R/ERR/CRASH lines as harness/c05_harness.c;  R <id> <eng> <out-hex> <obs-hex> <aux-hex> */
 #define _GNU_SOURCE
@@ -118,7 +118,7 @@ static void run_case (const char *id, const char *text, const char *fname, const
     MIR_module_t m;
     MIR_item_t it, func = NULL;
     if (*e == ' ' || *e == '\n') continue;
-    ei = *e == 'i' ? 0 : *e == 'L' ? 5 : *e - '0' + 1;
+    ei = *e == 'i' ? 0 : (*e == 'L' || *e == 'M') ? 5 : *e - '0' + 1;
     if (ei < 0 || ei > 5) continue;
     snprintf (cur_eng, sizeof (cur_eng), "%c", *e);
     snprintf (cur_id, sizeof (cur_id), "%s", id);
@@ -146,9 +146,12 @@ static void run_case (const char *id, const char *text, const char *fname, const
       one_call (id, cur_eng, func->addr);
     } else if (ei == 5) {
       MIR_link (ctx, MIR_set_lazy_gen_interface, NULL);
+      snprintf (cur_eng, sizeof (cur_eng), "L");
       one_call (id, "L", func->addr); /* generation happens inside this call */
-      snprintf (cur_eng, sizeof (cur_eng), "l");
-      one_call (id, "l", func->addr);
+      if (*e == 'M') {
+        snprintf (cur_eng, sizeof (cur_eng), "l");
+        one_call (id, "l", func->addr);
+      }
     } else {
       MIR_link (ctx, MIR_set_gen_interface, NULL);
       MIR_gen (ctx, func);
@@ -193,6 +196,13 @@ int main (int argc, char **argv) {
     case 'P': sscanf (line + 2, "%d %d %d %d", &np, &nv, &nl, &na); break;
     case 'E': snprintf (engs, sizeof (engs), "%s", line + 2); break;
     case 'X':
+      if (ncase % 300 == 299) /* keep the contexts small: loading/linking cost grows with the modules in a context */
+        for (int k = 0; k < 6; k++)
+          if (ctxs[k] != NULL) {
+            if (k > 0) MIR_gen_finish (ctxs[k]);
+            MIR_finish (ctxs[k]);
+            ctxs[k] = NULL;
+          }
       if (ncase++ >= first) run_case (id, text, fname, engs);
       break;
     default: break;
